@@ -6,7 +6,7 @@ func init() {
 	register(&Property{ID: "C14", Run: runC14, Assumptions: append([]string{"msync/unlink behave as the property's crash models say (model, not decided)"}, commonAssumptions...),
 		Explanation: "Only the write-ordering protocol the property's mechanisms name is decided (that reopening every intermediate file image yields the durable prefix needs file images and is not applicable): segment.sync is flush -> header -> flush -> mark synced with errors returned in between; header slot 0 is written only by sync and removeGTE, append only writes slot n+2; removeGTE lowers the header and marks unsynced before flushing on every path; Append commits before rolling over to a segment named after the last index, RemoveLTE/RemoveGTE/Close commit first, CommitN cannot skip a dirty segment with entries <= n; createSegment truncates, zeroes the header, syncs, closes and removes the file on failure; openSegments connects or removes every discovered file and leaves its loop only on a non-nil error."})
 	register(&Property{ID: "C13", Run: runC13, Assumptions: commonAssumptions,
-		Explanation: "Only two clauses are claimed (byte-exact reads and index arithmetic at segment boundaries are value-dependent and not applicable): front removal removes whole segments, never the last one, only non-empty ones entirely at or below the requested index, unlinking before removing, and CanLTE predicts exactly that; log views held by replications, apply requests and leader updates are used only through the reading API, whose methods write nothing."})
+		Explanation: "Only structural clauses are claimed (byte-exact reads over arbitrary operation sequences and multi-segment index arithmetic are value-dependent and not applicable): the writer's and reader's offset tables agree (slot positions and widths, end-of-entry slots, what open reads back, back removal, Count/Contains/lastIndex, view bounds); front removal removes whole segments, never the last one, only non-empty ones entirely at or below the requested index, unlinking before removing, and CanLTE predicts exactly that; log views held by replications, apply requests and leader updates are used only through the reading API, whose methods write nothing."})
 }
 
 func runC14(c *core.Ctx) {
@@ -27,4 +27,9 @@ func runC13(c *core.Ctx) {
 	h.frontRemovalWholeSegments("C13.1 front-removal")
 	c.Clause("C13.2 views are read-only")
 	h.viewsAreReadOnly("C13.2 read-only-views")
+	c.Clause("C13.3 writer's and reader's offset tables agree (slot positions, end-of-entry slots, open, back removal, accessors)")
+	h.layoutAgreement("C13.3 layout")
+	c.Clause("C13.4 roll-over names the new segment after the last index; open chains only contiguous segments")
+	h.commitBeforeStructureChange("C13.4a roll-over")
+	h.openHandlesEveryFile("C13.4b open-chain")
 }
